@@ -191,7 +191,7 @@ PAIR_DISTS = {
 PARAM_DISTS = ("normal_loc", "normal_scale_kw", "poisson_lam", "uniform_high_kw")
 PARAM_KINDS = ("np", "da")
 PARAM_VALUES = (1.0, 1000.0)
-PARAM_SHAPES = {"quick": [(2,), (3,), (2, 2), (2, 3)], "thorough": [(2,), (3,), (4,), (2, 2), (2, 3), (3, 2)]}
+PARAM_SHAPES = {"quick": [(2,), (3,), (2, 2)], "thorough": [(2,), (3,), (4,), (2, 2), (2, 3), (3, 2)]}
 
 
 def param_draw(rng, pdist, pkind, vec, shp, ch):
@@ -239,14 +239,14 @@ def cases_of(shard, tier):
                         yield ("pair", mode, dist, shp, ch)
     elif kind == "params":
         api, pdist = shard[1], shard[2]
-        for seed in SEEDS[tier][:2]:
+        for seed in SEEDS[tier][: 1 if tier == "quick" else 2]:
             for shp in PARAM_SHAPES[tier]:
                 vecs = list(itertools.product(PARAM_VALUES, repeat=shp[-1]))
                 for ch in enums.chunkings(shp):
                     for pkind in PARAM_KINDS:
                         for va in vecs:
                             for vb in vecs:
-                                if va != vb:
+                                if va < vb:  # the pair is symmetric
                                     yield ("params", api, pdist, seed, shp, tuple(ch), pkind, va, vb)
     elif kind == "choice":
         api, n, part, nparts = shard[1:5]
@@ -395,7 +395,7 @@ def run_params(case, ctx):
         vx, problem = arr.compute_blocks(x)
         vy = y.compute()
         jx, jy = da.compute(x, y)
-        tx, ty = da.compute(x, y, scheduler="threads", num_workers=3)
+        tx, ty = da.compute(x, y, scheduler="threads", num_workers=3) if ctx.tier == "thorough" else (jx, jy)
         st = da.stack([x, y]).compute()
         v2 = x2.compute()
     except Hang:
@@ -524,8 +524,8 @@ def RULE(tier):
         f"{shapes(tier)} x EVERY chunking: rebuild from the same seed (same name, same bits, also for the 2nd draw of the generator), recompute, real "
         "thread pool, reverse-order controlled executor, every block computed alone; multiprocessing scheduler for every chunking of (2,3) in the master. "
         "array-valued parameters: pairs of arrays from identically seeded generators (Generator, RandomState) x {normal loc, normal scale=, poisson lam, uniform high=} x "
-        "{ndarray, dask array} x EVERY ordered pair of distinct parameter vectors over {1, 1000} x shapes (2,),(3,),(2,2),(2,3) x every chunking: rebuild equal, "
-        "compute(x, y) (sync, threads) and stack == the separate computes. unseeded: triples of arrays from {3 fresh generators, one generator used 3 times} x {Generator, RandomState, module-level} x 7 distributions x "
+        "{ndarray, dask array} x EVERY pair of distinct parameter vectors over {1, 1000} x shapes " + str(PARAM_SHAPES[tier]) + " x every chunking: rebuild equal, "
+        "compute(x, y) and stack == the separate computes. unseeded: triples of arrays from {3 fresh generators, one generator used 3 times} x {Generator, RandomState, module-level} x 7 distributions x "
         "every shape/chunking: pairwise distinct names and key sets, compute(a,b,c) (sync, threads) and stack == separate computes. "
         f"choice(replace=False): population n <= {NCHOICE[tier]} as int / ndarray / dask array with EVERY chunking x size in {{None, (), 0..n+1, 2-d a*b<=n}} "
         "x every output chunking x p in {None, skewed ndarray, skewed dask array} x shuffle: drawn elements lie in the population and are pairwise "
